@@ -39,7 +39,7 @@ fn btree_nodes(m: BTreeMap<String, (PathNode, usize)>) -> (r: Vec<PathNode>) { u
 fn empty_line_indices(lines : &Vec<&str>) -> (r: Vec<usize>) { unimplemented!() }
 // R4: `lines.into_iter().enumerate().map(|(num, line)| NumberedIndentedLine::new(num, line.to_owned())).collect::<Vec<NumberedIndentedLine>>()`
 #[verifier::external_body]
-fn number_lines(lines: Vec<&str>) -> (r: Vec<NumberedIndentedLine>) ensures r@.len() == lines@.len() { unimplemented!() }
+fn number_lines(lines: Vec<&str>) -> (r: Vec<NumberedIndentedLine>) ensures r@.len() == lines@.len(), forall|i: int| 0 <= i < r@.len() ==> (#[trigger] r@[i]).num == i /* enumerate() counts from 0 */ { unimplemented!() }
 // R4: String `+`
 #[verifier::external_body] fn concat2(a: &String, b: &str) -> (r: String) ensures r@ == a@ + b@ { unimplemented!() }
 #[verifier::external_body] fn concat3(a: &String, b: &str, c: &str) -> (r: String) ensures r@ == a@ + b@ + c@ { unimplemented!() }
@@ -128,8 +128,10 @@ impl PathNode {
 //@ ret res
 //@ spec
     ensures
-        // the only complaint is a contradiction, and it names the line being added                                   //# O-P2-contradiction-line [C14]
-        res matches Err(e) ==> e matches ParseError::Contradiction(_, b) && b == in_index,
+        // the only complaint is a contradiction; it names the line being added, after the line of the entry it contradicts    //# O-P2-contradiction-line [C14]
+        res matches Err(e) ==> e matches ParseError::Contradiction(a, b) && b == in_index && old(nodes)@.contains_key(in_node.name) && a == old(nodes)@[in_node.name].1,
+        // an entry, once recorded, keeps its line number; a new one gets the number of its line
+        res is Ok ==> (forall|k: String| #[trigger] final(nodes)@.contains_key(k) ==> (old(nodes)@.contains_key(k) && final(nodes)@[k].1 == old(nodes)@[k].1) || final(nodes)@[k].1 == in_index),
 //@ end
 
 impl PathBundle {
@@ -142,18 +144,23 @@ impl PathBundle {
 //@ spec
         requires level as int + lines@.len() < usize::MAX,
             forall|k: int| 0 <= k < lines@.len() ==> (#[trigger] lines@[k]).level >= level,
+            // the lines carry increasing numbers (their positions in the section)
+            forall|k: int, l: int| 0 <= k < l < lines@.len() ==> (#[trigger] lines@[k]).num < (#[trigger] lines@[l]).num,
         ensures
             // "rejected ... at the offending line": a wrong-indent error carries the number of one of these lines, and that line is
             // indented deeper than its place allows (deeper than `level`, the depth this group of lines has to start at)          //# O-P2-wrong-indent-line [C14]
             res matches Err(ParseError::WrongIndent(x)) ==> exists|k: int| 0 <= k < lines@.len() && (#[trigger] lines@[k]).num == x && lines@[k].level > level,
-            // a contradiction names one of these lines as the second of the two                                                  //# O-P2-contradiction-of-these [C14]
-            res matches Err(ParseError::Contradiction(_, b)) ==> exists|k: int| 0 <= k < lines@.len() && (#[trigger] lines@[k]).num == b,
+            // a contradiction names one of these lines as the second of the two, and an EARLIER line as the first                //# O-P2-contradiction-of-these [C14]
+            res matches Err(ParseError::Contradiction(a, b)) ==> a < b && exists|k: int| 0 <= k < lines@.len() && (#[trigger] lines@[k]).num == b,
             res matches Err(ParseError::Empty) ==> lines@.len() == 0,
             !(res matches Err(ParseError::ContainsEmptyLines(_))),
         decreases lines@.len(),
 //@ loop 1 invariant
             invariant n == lines@.len(), i <= n, level as int + lines@.len() < usize::MAX,
                 forall|k: int| 0 <= k < lines@.len() ==> (#[trigger] lines@[k]).level >= level,
+                forall|k: int, l: int| 0 <= k < l < lines@.len() ==> (#[trigger] lines@[k]).num < (#[trigger] lines@[l]).num,
+                // every recorded entry carries the number of a line already read
+                forall|k: String| #[trigger] nodes@.contains_key(k) ==> (i < n ==> nodes@[k].1 < lines@[i as int].num) && (i > 0 ==> nodes@[k].1 <= lines@[i - 1].num),
             decreases n - i,
 //@ loop 2 invariant
                 invariant n == lines@.len(), i < j <= n,
